@@ -96,6 +96,7 @@ class Lemma:
     proves_fact: str | None = None
     file: str | None = None
     exc_ok: str | None = None      # a harness step may raise only when this holds (default: never)
+    cuts: list = dataclasses.field(default_factory=list)      # intermediate claims: (after step name | None, expr): proved, then assumed
 
 
 def lemma(**kw):
